@@ -220,6 +220,11 @@ def gen_pool(rng):
                   'regions': [gen.simple_region(rng, fits_ok,
                                                 meta_exclude=('component',))
                               for _ in range(rng.randint(1, 3))]})
+    add('table', {'t': 'table_variant', 'variant': 'other_shapes',
+                  'regions': [
+                      gen.region_from_tokens('RectanglePixelRegion',
+                                             gen.draw_tokens(rng, 'RectanglePixelRegion')),
+                      gen.simple_region(rng, fits_ok, with_meta=0.0)]})
     add('bbox', {'t': 'bbox', 'v': [1, 10, 2, 8]})
     add('bbox', {'t': 'bbox', 'v': [-3, 4, 5, 30]})
     add('mask', {'t': 'mask', 'mode': 'center', 'region': gen.simple_region(
@@ -1306,6 +1311,14 @@ def battery_plan():
         gen.region_from_tokens(c, gen.draw_tokens(rng, c, small=True))
         for c in gen.FITS_CLASSES]})
     op('parse_fixed', [t], fmt='fits')
+    t2 = add('table', {'t': 'table_variant', 'variant': 'other_shapes',
+                       'regions': [gen.region_from_tokens(
+                           'RectanglePixelRegion',
+                           {'center': 3, 'width': 2, 'height': 4, 'angle': 1})]})
+    op('parse_fixed', [t2], fmt='fits')
+    b = add('bbox', {'t': 'bbox', 'v': [1, 10, 2, 8]})
+    op('bbox_fixed', [b])
+    op('defaults_fixed', [p0])
     op('formats_fixed', [])
     return {'engine': ENGINE, 'seed': 424242, 'cfg': {'warn': 'default',
                                                       'encoding': 'utf-8'},
@@ -1356,6 +1369,22 @@ def _battery_ops(ex):
             except Exception as exc:
                 return repr(exc)[:80]
         return fn
+
+    def bbox_fixed(a, op):
+        b = a.slot(('x',))
+        return lambda: [b.to_region(), b.as_artist(), b.shape, b.extent]
+
+    def defaults_fixed(a, op):
+        # regions built with every optional argument left at its default
+        import regions as R
+        p = a.slot(('x',))
+        return lambda: [R.RectanglePixelRegion(p, 3, 2),
+                        R.EllipsePixelRegion(p, 3, 2),
+                        R.RegularPolygonPixelRegion(p, 5, 3),
+                        R.CirclePixelRegion(p, 2).meta,
+                        R.CirclePixelRegion(p, 2).visual,
+                        R.PolygonPixelRegion(R.PixCoord([1, 5, 3],
+                                                        [1, 1, 6])).origin]
 
     def formats_fixed(a, op):
         return lambda: [Region.get_formats(), Regions.get_formats()]
